@@ -13,8 +13,8 @@ Invariant (`Inv`): after a set `S` of leafs has been processed, with `g` the cur
 A block `(t, j)` without a key in the map contains no leaf of `S`, hence has the same root as at the start.
 Node indices are tied to blocks by `nodeIdx` / `siblingAndParent_spec` / `nodeIdx_inj` (`TF/Proofs/MmrNodeIndex.lean`).
 -/
-namespace TF.MmrE
-open TF TF.Gen TF.Model.Mmr TF.Model.MmrE TF.Spec.MmrE
+namespace TF.MmrBM
+open TF TF.Gen TF.Model.Mmr TF.Model.MmrE TF.Spec.MmrE TF.MmrE
 
 section BM
 variable {D : Type} (H : D → D → D)
@@ -598,4 +598,4 @@ theorem batchMutateLeafAndUpdateMps_spec (g : Nat → D) (n : Nat) (ms : List (N
   simp only [Option.bind_eq_bind, Option.bind_some, hrep, Option.pure_def, Nat.add_zero, List.map_id']
 
 end BR
-end TF.MmrE
+end TF.MmrBM
